@@ -17,6 +17,7 @@ RULE = ('Dictionaries of 0-8 identifier-named series (priority names iteration, 
         'sign incl. inf/nan/-0.0/1e308/5e-324, rendered with formats %.Ng, %.Nf, %.Ne (N=0..17), %s, %r, %d-free; plus '
         'solved BlockSpecs. Non-trivial: >= 3 series with at least one priority name not inserted first, ragged lengths, '
         'and a non-integer value; or a solved block. Distinct: sha1 of the spec.')
+RULE = RULE + (' Input shapes added after the seeded-change rounds (DESIGN.md section 8): ' + 'format strings with literal text around the conversion; the holder created with another axis name; the solver-level horizon incl. 0; all-empty series.')
 ASSUMPTIONS = [
     '"alphabetically" is accepted as either plain string order or case-insensitive order (both are checked to be permutations '
     'of the stored names with the priority names first, in priority order)',
